@@ -2,7 +2,7 @@
 use re::geom::{vertex, Mesh, Normal3};
 use re::math::{pt2, pt3, turns, vec2};
 use re_geom::solids::*;
-use std::collections::HashMap;
+use std::collections::{BTreeMap, HashMap};
 use vlib::*;
 
 #[derive(Clone, Debug)]
@@ -127,7 +127,7 @@ fn check(s: &Shape, r: &mut Report) {
         match found { Some(j) => rep_of[i] = rep_of[j], None => grid.entry(c).or_default().push(i) }
     }
     // faces
-    let mut edges: HashMap<(usize, usize), i32> = HashMap::new();
+    let mut edges: BTreeMap<(usize, usize), i32> = BTreeMap::new();
     let mut nfaces = 0i64;
     let mut sense: Option<bool> = None;
     for (fi, f) in m.faces.iter().enumerate() {
@@ -168,8 +168,8 @@ fn check(s: &Shape, r: &mut Report) {
         r.h("closed-ok");
     } else {
         // open shapes: interior edges paired, boundary edges form rings (each boundary vertex has one in and one out boundary edge)
-        let mut bout: HashMap<usize, i32> = HashMap::new();
-        let mut bin: HashMap<usize, i32> = HashMap::new();
+        let mut bout: BTreeMap<usize, i32> = BTreeMap::new();
+        let mut bin: BTreeMap<usize, i32> = BTreeMap::new();
         let mut nb = 0;
         for (&(x, y), &n) in &edges {
             let rev = edges.get(&(y, x)).copied().unwrap_or(0);
